@@ -80,6 +80,11 @@ def real_table(im):
     return out
 
 
+def raw_structure(im):
+    """the public mapping exactly as it is, empty cells included (a refused add must leave it as it was)"""
+    return {v: {a: sorted(id(img) for img in im.images[v][a]) for a in im.images[v]} for v in im.images}
+
+
 def model_table(model):
     out = {}
     for cell, entries in model.items():
@@ -110,10 +115,11 @@ def history_case(case):
                 img, key = shared[idx], ("pool", idx)
             stored = [r for entries in model.values() for r in entries.values()]
             clash = [r for r in stored if ident(r) == ident(rec) and r["checksums"] != rec["checksums"]]
-            before = real_table(im)
+            before = raw_structure(im)
             if vt(version) >= (1, 1) and clash:
                 refuses("add-colliding", (ValueError,), im.add, op["variant"], op["arch"], img)
-                check(real_table(im) == before, "refused-add-changed-manifest", "step %d: manifest changed by a refused add" % step)
+                check(raw_structure(im) == before, "refused-add-changed-manifest", lambda: "step %d: Images.images changed by a refused add: %r -> %r" % (
+                    step, {v: sorted(a) for v, a in before.items()}, {v: sorted(im.images[v]) for v in im.images}))
                 refused += 1
             else:
                 must("add", im.add, op["variant"], op["arch"], img)
